@@ -674,7 +674,7 @@ func (p *Prog) verifyFunction(ct *Contract, opts runOpts) *FuncReport {
 			continue
 		}
 		q := e.buildQuery(pre, r.O, true)
-		r2 := solve(wd, r.O.Name+"_retry", q, opts.timeoutS*5, false)
+		r2 := solve(wd, r.O.Name+"_retry", q, opts.timeoutS*10, false)
 		if r2.Verdict == "unsat" || r2.Verdict == "sat" {
 			r2.Solver += " (retry)"
 			r.Res = r2
